@@ -590,8 +590,36 @@ func ruleOperationType(r *Run) {
 	// for root steps only, see (2)) — never under the client's: a follow-up `node(id:)` lookup is
 	// an anonymous query, and a service rejects an operationName that its document does not define
 	k := 0
+	// the value may pass through constructors (`requests.NewRequest(q, vars, name)`): a
+	// parameter is traced back to what each caller hands in; what the executor hands in is judged
+	type opnLeaf struct {
+		fn  *ssa.Function
+		v   ssa.Value
+		pos token.Pos
+	}
+	var expand func(fn *ssa.Function, v ssa.Value, pos token.Pos, depth int) []opnLeaf
+	expand = func(fn *ssa.Function, v ssa.Value, pos token.Pos, depth int) []opnLeaf {
+		if p, isParam := v.(*ssa.Parameter); isParam && depth < 3 {
+			idx := -1
+			for i, q := range fn.Params {
+				if q == p {
+					idx = i
+				}
+			}
+			var out []opnLeaf
+			for _, e := range r.P.CG.In[fn] {
+				if e.Kind == "static" && idx >= 0 && idx < len(e.Site.Common().Args) {
+					out = append(out, expand(e.Caller, e.Site.Common().Args[idx], e.Site.Pos(), depth+1)...)
+				}
+			}
+			if len(out) > 0 {
+				return out
+			}
+		}
+		return []opnLeaf{{fn, v, pos}}
+	}
 	for _, fn := range r.P.Funcs {
-		if topFn(fn).Pkg == nil || topFn(fn).Pkg.Pkg.Path() != modPath+"/executor" {
+		if !inModule(fn) {
 			continue
 		}
 		for _, ins := range allInstrs(fn) {
@@ -603,11 +631,16 @@ func ruleOperationType(r *Run) {
 			if !ok || fieldOf(fa) == nil || fieldOf(fa).Name() != "OperationName" || namedOf(fa.X.Type()) != modPath+"/requests.Request" {
 				continue
 			}
-			k++
-			good, why := stepOperationName(st.Val, 0)
-			r.Check(good, rule, fnName(fn), "operation name of a downstream request", r.P.pos(st.Pos()),
-				"the request carries QueryPlanStep.OperationName, which the planner sets on root steps only",
-				"a downstream request is not sent under its step's own operation name ("+why+"): the client's operation name reaches the follow-up lookups, whose documents are anonymous — the service answers `unknown operation` (C02), or runs the wrong operation")
+			for _, lf := range expand(fn, st.Val, st.Pos(), 0) {
+				if topFn(lf.fn).Pkg == nil || topFn(lf.fn).Pkg.Pkg.Path() != modPath+"/executor" {
+					continue
+				}
+				k++
+				good, why := stepOperationName(lf.v, 0)
+				r.Check(good, rule, fnName(lf.fn), "operation name of a downstream request", r.P.pos(lf.pos),
+					"the request carries QueryPlanStep.OperationName, which the planner sets on root steps only",
+					"a downstream request is not sent under its step's own operation name ("+why+"): the client's operation name reaches the follow-up lookups, whose documents are anonymous — the service answers `unknown operation` (C02), or runs the wrong operation")
+			}
 		}
 	}
 	r.AtLeast(rule, "downstream requests built by the executor", k, 1)
